@@ -555,7 +555,9 @@ pub fn main(args: &[String]) {
                 roundtrip(&header, &shape_groups((1, 2), 1, 16), "timestamp_stats", format!("{ts} {large}").as_bytes(), &mut agg, &mut st, true);
             }
         }
-        let qa = crate::quote::alphabet();
+        // the alphabet of C17 plus the empty argument (`--name ''`)
+        let mut qa = crate::quote::alphabet();
+        qa.push(Vec::new());
         let mut cmds: Vec<Vec<Vec<u8>>> = Vec::new();
         for a in &qa {
             cmds.push(vec![a.clone()]);
